@@ -74,6 +74,57 @@ def classify(c):
     return None
 
 
+def evaluate(ck, cases, reals, stats, label="C02"):
+    """structural + behavioural correspondence and the distinct-row oracle for a batch of joined cases"""
+    answers = Driver().run([{k: v for k, v in c.items() if not k.startswith("_")} for c in cases])
+    disagree = 0
+    for c, a, r in zip(cases, answers, reals):
+        if "error" in a:
+            ck.obligation(f"correspondence {label} (driver error)", False, f"{a['error']} case={canon(c)[:500]}")
+            continue
+        mo = a.get("outcome", "error").split(":")[0]
+        stats[r["outcome"]] += 1
+        if r["outcome"] != "ok" or mo != "ok":
+            if r["outcome"] != mo and not (r["outcome"] == "sql_error" and mo == "ok"):
+                disagree += 1
+                if disagree <= 4:
+                    ck.obligation(f"correspondence {label}: outcome kind", False, f"real={r['outcome']} {r.get('error')} model={a.get('outcome')} query={canon(c['query'])[:400]} models={canon([(m['name'], m['rels']) for m in c['models']])[:500]}")
+            continue
+        try:
+            same, x, y = sqlnorm.same(norm_ctes(r["sql"]), norm_ctes(a["sql"]))
+        except Exception as e:  # noqa: BLE001
+            same, x, y = False, repr(e), ""
+        if not same:
+            disagree += 1
+            c["_mismatch"] = True
+            if disagree <= 4:
+                ck.obligation(f"correspondence {label} (structural): compile() SQL vs toSql(genJoin)", False, f"real: {x[:2200]} || model: {y[:2200]} || query={canon(c['query'])[:400]} rels={canon([(m['name'], m['rels']) for m in c['models']])[:400]}")
+            continue
+        stats["structural_ok"] += 1
+        if a.get("symmetric"):
+            stats["symmetric"] += 1
+        # behavioural: DuckDB rows vs Plan.eval (the model's HASH stand-in differs from DuckDB's when a NULL
+        # measure leaves an uncancelled hash term: those cases are compared structurally only)
+        sq = [False] * len(r["columns"])
+        rrows = c01.canon_rows(r["rows"], sq)
+        mrows = [tuple(x) for x in S.lean_rows(a["rows"])]
+        key = classify(c)
+        nullsym = a.get("symmetric") and key == "F2-null-measure-symmetric"
+        if r["columns"] != a["columns"] or (not nullsym and not c01.bag_equal(rrows, mrows)):
+            disagree += 1
+            if disagree <= 4:
+                ck.obligation(f"correspondence {label} (behavioural): DuckDB rows vs Plan.eval", False, f"real={duck.show(r['rows'])} model={a['rows'][:8]} sql={r['sql'][:1500]} query={canon(c['query'])[:300]}")
+        # property: every metric is its aggregation over the distinct connected rows of its own model
+        spec = [tuple(x) for x in S.lean_rows(a["spec_body"])]
+        if not c01.bag_equal(rrows, spec):
+            ck.fail_input("a metric of a joined query differs from its aggregation over the distinct connected rows of its own model",
+                          {"models": c["models"], "tables": c["tables"], "query": c["query"], "real_rows": duck.show(r["rows"]), "expected": [[str(v) for v in x] for x in spec[:12]], "sql": r["sql"]},
+                          finding_key=key)
+        else:
+            stats["spec_ok"] += 1
+    return disagree
+
+
 def directed_search(ck, suspects, stats):
     """a correspondence broke: replay the suspect (models, query) pairs on fresh fan-out-heavy tables and
     compare the real rows with the reference semantics (distinct connected rows)"""
@@ -113,53 +164,8 @@ def run(ck: Check):
             q = M.gen_query(rng, ms)
             reals.append(M.run_real(layer, q))
             cases.append({"op": "c02", "models": M.lean_models(ms), "query": q, "tables": tables, "_ms": ms, "_meta": dict(M.GEN_META)})
-    answers = Driver().run([{k: v for k, v in c.items() if not k.startswith("_")} for c in cases])
     stats = Counter()
-    disagree = 0
-    for c, a, r in zip(cases, answers, reals):
-        if "error" in a:
-            ck.obligation("correspondence C02 (driver error)", False, f"{a['error']} case={canon(c)[:500]}")
-            continue
-        mo = a.get("outcome", "error").split(":")[0]
-        stats[r["outcome"]] += 1
-        if r["outcome"] != "ok" or mo != "ok":
-            if r["outcome"] != mo and not (r["outcome"] == "sql_error" and mo == "ok"):
-                disagree += 1
-                if disagree <= 4:
-                    ck.obligation("correspondence C02: outcome kind", False, f"real={r['outcome']} {r.get('error')} model={a.get('outcome')} query={canon(c['query'])[:400]} models={canon([(m['name'], m['rels']) for m in c['models']])[:500]}")
-            continue
-        try:
-            same, x, y = sqlnorm.same(norm_ctes(r["sql"]), norm_ctes(a["sql"]))
-        except Exception as e:  # noqa: BLE001
-            same, x, y = False, repr(e), ""
-        if not same:
-            disagree += 1
-            c["_mismatch"] = True
-            if disagree <= 4:
-                ck.obligation("correspondence C02 (structural): compile() SQL vs toSql(genJoin)", False, f"real: {x[:2200]} || model: {y[:2200]} || query={canon(c['query'])[:400]} rels={canon([(m['name'], m['rels']) for m in c['models']])[:400]}")
-            continue
-        stats["structural_ok"] += 1
-        if a.get("symmetric"):
-            stats["symmetric"] += 1
-        # behavioural: DuckDB rows vs Plan.eval (the model's HASH stand-in differs from DuckDB's when a NULL
-        # measure leaves an uncancelled hash term: those cases are compared structurally only)
-        sq = [False] * len(r["columns"])
-        rrows = c01.canon_rows(r["rows"], sq)
-        mrows = [tuple(x) for x in S.lean_rows(a["rows"])]
-        key = classify(c)
-        nullsym = a.get("symmetric") and key == "F2-null-measure-symmetric"
-        if r["columns"] != a["columns"] or (not nullsym and not c01.bag_equal(rrows, mrows)):
-            disagree += 1
-            if disagree <= 4:
-                ck.obligation("correspondence C02 (behavioural): DuckDB rows vs Plan.eval", False, f"real={duck.show(r['rows'])} model={a['rows'][:8]} sql={r['sql'][:1500]} query={canon(c['query'])[:300]}")
-        # property: every metric is its aggregation over the distinct connected rows of its own model
-        spec = [tuple(x) for x in S.lean_rows(a["spec_body"])]
-        if not c01.bag_equal(rrows, spec):
-            ck.fail_input("a metric of a joined query differs from its aggregation over the distinct connected rows of its own model",
-                          {"models": c["models"], "tables": c["tables"], "query": c["query"], "real_rows": duck.show(r["rows"]), "expected": [[str(v) for v in x] for x in spec[:12]], "sql": r["sql"]},
-                          finding_key=key)
-        else:
-            stats["spec_ok"] += 1
+    disagree = evaluate(ck, cases, reals, stats)
     if disagree and not ck.failing:
         directed_search(ck, [c for c in cases if c.get("_mismatch")], stats)
     if disagree == 0:
